@@ -2,7 +2,15 @@ import GV.Model.Cell
 import GV.Spec.Json
 import GV.Lemmas.Dec
 import GV.Lemmas.C11
-/- helper lemmas for GV/Props/C14.lean -/
+/- helper lemmas for GV/Props/C14.lean
+
+   Outline: (1) the variable-length prefix; (2) every in-range scalar decodes, whatever bytes follow it
+   (`scalar_val`); (3) the container writer's layout (`assemble_layout`), the key table (`keys_ok`), one value
+   entry (`entry_inl` / `entry_out`, `entry_step`) and the two entries loops; (4) `arr_ok` / `obj_ok`: a container
+   decodes if its children do; (5) `doc_ok`: induction on `sizeOf` over the nested inductive, for any
+   well-formedness predicate satisfying `WFSpec`.  The invariant carried through the recursion is `ChildOK`:
+   decoding `encoding ++ anything` with fuel ≥ 2 * (encoding length) gives the rendered text, so no fuel
+   monotonicity lemma is needed and `jsonFuel` (2 * length + 8) is always enough. -/
 namespace GV
 namespace C14
 open Bytes M
@@ -535,6 +543,505 @@ theorem go1_length (w : Nat) (ks : List Bytes) (off : Nat) :
   | cons k ks ih =>
     simp only [W.assemble.go1, List.flatMap_cons, List.length_append, ih, id, ofLE_length, List.length_cons, Nat.add_mul]
     omega
+
+/-! ### reading the key table -/
+
+theorem keysLen_cons (k : Bytes) (ks : List Bytes) : keysLen (k :: ks) = k.length + keysLen ks := by
+  simp [keysLen]
+
+theorem pow_ow (large : Bool) : (2:Nat) ^ (8 * W.ow large) = 256 ^ W.ow large := by
+  cases large <;> rfl
+
+theorem keys_ok (large : Bool) (ks : List Bytes) : ∀ (data : Bytes) (pos koff : Nat) (R R' : Bytes),
+    data.drop pos = (W.assemble.go1 (W.ow large) ks koff).flatMap id ++ R →
+    data.drop koff = ks.flatMap id ++ R' →
+    pos ≤ data.length → koff ≤ data.length → koff + keysLen ks < 256 ^ W.ow large →
+    (∀ k ∈ ks, k.length < 65536) →
+    jsonKeys data large ks.length pos = .ok (ks, pos + ks.length * (W.ow large + 2)) := by
+  induction ks with
+  | nil => intro data pos koff R R' _ _ _ _ _ _; simp [jsonKeys]
+  | cons k ks ih =>
+    intro data pos koff R R' hent hkeys hpos hkoff hfit hk
+    simp only [W.assemble.go1, List.flatMap_cons, id, List.append_assoc] at hent hkeys
+    have hl1 := drop_length_of hent
+    have hl2 := drop_length_of hkeys
+    simp only [List.length_append, ofLE_length] at hl1 hl2
+    rw [keysLen_cons] at hfit
+    have hw2 : W.ow false = 2 := rfl
+    -- the offset
+    have h1 := readOffsetOrSize_of_drop large hent hpos (by omega)
+    -- the length
+    have hent2 := drop_add_of_drop hent (W.ow large) (by simp)
+    have h2 := readOffsetOrSize_of_drop (n := k.length) false hent2 (by omega)
+      (by have := hk k (by simp); simpa [W.ow] using this)
+    -- the key
+    have h3 := slice_of_drop hkeys hkoff rfl
+    -- the rest
+    have hent3 := drop_add_of_drop hent2 (W.ow false) (by simp [hw2])
+    have hkeys2 := drop_add_of_drop hkeys k.length rfl
+    have h4 := ih data (pos + W.ow large + W.ow false) (koff + k.length) R R' hent3 hkeys2 (by rw [hw2]; omega)
+      (by omega) (by omega) (fun k' hk' => hk k' (by simp [hk']))
+    simp only [List.length_cons, jsonKeys, h1, Res.ok_bind, h2, h3, h4, Res.pure_eq]
+    congr 2
+    rw [hw2, Nat.add_mul]
+    omega
+
+/-! ### value entries -/
+
+theorem inlined_false_iff (large : Bool) (t : Nat) :
+    W.inlined large t = false ↔ t ≠ 4 ∧ t ≠ 5 ∧ t ≠ 6 ∧ ¬ (t = 7 ∧ large = true) ∧ ¬ (t = 8 ∧ large = true) := by
+  cases large <;> simp [W.inlined, and_assoc]
+
+/-- an out-of-line value entry hands the bytes at its offset to the value decoder -/
+theorem entry_out (E : Ext) (large : Bool) (data : Bytes) (pos off t : Nat) (R X : Bytes) (f : Nat) (ht : t < 16)
+    (hinl : W.inlined large t = false)
+    (hent : data.drop pos = UInt8.ofNat t :: (ofLE (W.ow large) off ++ R)) (hoff : off < 256 ^ W.ow large)
+    (hoffle : off ≤ data.length) (hd : data.drop off = X) :
+    jsonEntry E (f + 1) data pos large = jsonValue E f t X false := by
+  obtain ⟨n4, n5, n6, n7, n8⟩ := (inlined_false_iff large t).mp hinl
+  have hl := drop_length_of hent
+  simp only [List.length_cons] at hl
+  have h0 := get_of_drop hent
+  have hent2 : data.drop (pos + 1) = ofLE (W.ow large) off ++ R :=
+    drop_add_of_drop (a := [UInt8.ofNat t]) hent 1 rfl
+  have h1 := readOffsetOrSize_of_drop large hent2 (by omega) hoff
+  have h2 := sliceFrom_of_drop hd hoffle
+  rw [jsonEntry]
+  simp only [h0, Res.ok_bind, toNat_ofNat_lt t (by omega), n4, n5, n6, n7, n8, if_false, h1, h2]
+
+theorem inlined_len (large : Bool) (d : W.JDoc) (h : W.inlined large (W.encVal d).1 = true) :
+    (W.encVal d).2.length ≤ W.ow large := by
+  cases d with
+  | obj l kvs => cases l <;> cases large <;> simp [W.encVal, W.inlined] at h
+  | arr l kvs => cases l <;> cases large <;> simp [W.encVal, W.inlined] at h
+  | _ => cases large <;> simp [W.encVal, W.inlined, W.ow] at h ⊢
+
+/-- an inlined value entry is decoded from the entry itself -/
+theorem entry_inl (E : Ext) (large : Bool) (d : W.JDoc) (data : Bytes) (pos : Nat) (R : Bytes) (f : Nat)
+    (hinl : W.inlined large (W.encVal d).1 = true) (hok : SOK d)
+    (hent : data.drop pos = UInt8.ofNat (W.encVal d).1 :: ((W.encVal d).2 ++ R)) :
+    jsonEntry E (f + 1) data pos large = .ok (W.render E.fmtFloat64E false d) := by
+  have hl := drop_length_of hent
+  simp only [List.length_cons] at hl
+  have h0 := get_of_drop hent
+  have hent2 : data.drop (pos + 1) = (W.encVal d).2 ++ R :=
+    drop_add_of_drop (a := [UInt8.ofNat (W.encVal d).1]) hent 1 rfl
+  have hp : pos + 1 ≤ data.length := by omega
+  rw [jsonEntry]
+  simp only [h0, Res.ok_bind, toNat_ofNat_lt _ (show (W.encVal d).1 < 256 by have := encVal_typ_lt d; omega)]
+  cases d with
+  | lit b =>
+    simp only [W.encVal] at hent2 ⊢
+    have h1 := get_of_drop hent2
+    simp only [SOK] at hok
+    obtain rfl | rfl | rfl : b = 0 ∨ b = 1 ∨ b = 2 := by omega
+    all_goals simp [h1, jsonLiteral, Facts.jsonNullLiteral, Facts.jsonTrueLiteral, Facts.jsonFalseLiteral, q, W.render, W.sq]
+  | i16 v =>
+    simp only [W.encVal] at hent2 ⊢
+    have := scalarInt_at data R (pos + 1) 2 _ true false hent2 hp
+    simp only [Nat.reduceEqDiff, if_false, if_true, this, toSigned16 v hok, W.render]
+  | u16 n =>
+    simp only [W.encVal] at hent2 ⊢
+    have := scalarInt_at data R (pos + 1) 2 _ false false hent2 hp
+    simp only [SOK] at hok
+    simp [this, Nat.mod_eq_of_lt hok, W.render]
+  | i32 v =>
+    cases large with
+    | false => simp [W.encVal, W.inlined] at hinl
+    | true =>
+      simp only [W.encVal] at hent2 ⊢
+      have := scalarInt_at data R (pos + 1) 4 _ true false hent2 hp
+      simp only [Nat.reduceEqDiff, if_false, if_true, this, toSigned32 v hok, W.render, and_self]
+  | u32 n =>
+    cases large with
+    | false => simp [W.encVal, W.inlined] at hinl
+    | true =>
+      simp only [W.encVal] at hent2 ⊢
+      have := scalarInt_at data R (pos + 1) 4 _ false false hent2 hp
+      simp only [SOK] at hok
+      simp [this, Nat.mod_eq_of_lt hok, W.render]
+  | obj l kvs => cases l <;> cases large <;> simp [W.encVal, W.inlined] at hinl
+  | arr l kvs => cases l <;> cases large <;> simp [W.encVal, W.inlined] at hinl
+  | _ => cases large <;> simp [W.encVal, W.inlined] at hinl
+
+/-! ### the entries loops -/
+
+/-- what the induction provides for a child: it decodes, followed by anything, with fuel twice its length -/
+def ChildOK (E : Ext) (d : W.JDoc) : Prop :=
+  ∀ (f : Nat) (R : Bytes) (top : Bool), 2 * (W.encVal d).2.length ≤ f →
+    jsonValue E f (W.encVal d).1 ((W.encVal d).2 ++ R) top = .ok (W.render E.fmtFloat64E top d)
+
+theorem step_width (large : Bool) : (if large = true then 5 else 3) = 1 + W.ow large := by
+  cases large <;> rfl
+
+/-- one step of either entries loop: the entry decodes to the child's text and the invariant moves on -/
+theorem entry_step (E : Ext) (large : Bool) (d : W.JDoc) (rest : List (Nat × Bytes)) (data : Bytes)
+    (pos off : Nat) (R R' : Bytes) (F : Nat) (hch : ChildOK E d)
+    (hsok : W.inlined large (W.encVal d).1 = true → SOK d)
+    (hent : data.drop pos = (W.assemble.go2 large (W.ow large) (W.encVal d :: rest) off).1 ++ R)
+    (htail : data.drop off = (W.assemble.go2 large (W.ow large) (W.encVal d :: rest) off).2 ++ R')
+    (hoff : off ≤ data.length)
+    (hfit : off + (W.assemble.go2 large (W.ow large) (W.encVal d :: rest) off).2.length < 256 ^ W.ow large)
+    (hF : 2 * (W.assemble.go2 large (W.ow large) (W.encVal d :: rest) off).2.length + 3 * (rest.length + 1) + 1 ≤ F + 2) :
+    jsonEntry E (F + 1) data pos large = .ok (W.render E.fmtFloat64E false d) ∧
+    ∃ off', data.drop (pos + (1 + W.ow large)) = (W.assemble.go2 large (W.ow large) rest off').1 ++ R ∧
+      data.drop off' = (W.assemble.go2 large (W.ow large) rest off').2 ++ R' ∧ off' ≤ data.length ∧
+      off' + (W.assemble.go2 large (W.ow large) rest off').2.length < 256 ^ W.ow large ∧
+      2 * (W.assemble.go2 large (W.ow large) rest off').2.length + 3 * rest.length + 1 ≤ F + 1 := by
+  by_cases hinl : W.inlined large (W.encVal d).1 = true
+  · have e : W.assemble.go2 large (W.ow large) (W.encVal d :: rest) off = _ :=
+      go2_inl large (W.ow large) (W.encVal d).1 (W.encVal d).2 rest off hinl
+    rw [e] at hent htail hfit hF
+    dsimp only at hent htail hfit hF
+    simp only [List.cons_append, List.append_assoc] at hent
+    have hlen := inlined_len large d hinl
+    refine ⟨entry_inl E large d data pos _ F hinl (hsok hinl) hent, off, ?_, htail, hoff, hfit, by omega⟩
+    have := drop_add_of_drop (a := UInt8.ofNat (W.encVal d).1 :: ((W.encVal d).2 ++
+      List.replicate (W.ow large - (W.encVal d).2.length) 0)) (R := (W.assemble.go2 large (W.ow large) rest off).1 ++ R)
+      (by simpa using hent) (1 + W.ow large) (by simp; omega)
+    exact this
+  · have hinl' : W.inlined large (W.encVal d).1 = false := by simpa using hinl
+    have e : W.assemble.go2 large (W.ow large) (W.encVal d :: rest) off = _ :=
+      go2_out large (W.ow large) (W.encVal d).1 (W.encVal d).2 rest off hinl'
+    rw [e] at hent htail hfit hF
+    dsimp only at hent htail hfit hF
+    simp only [List.cons_append, List.append_assoc, List.length_append] at hent htail hfit hF
+    have hl := drop_length_of htail
+    simp only [List.length_append] at hl
+    obtain ⟨F', rfl⟩ : ∃ F', F = F' + 1 := ⟨F - 1, by omega⟩
+    refine ⟨?_, off + (W.encVal d).2.length, ?_, drop_add_of_drop htail _ rfl, by omega, by omega, by omega⟩
+    · rw [entry_out E large data pos off (W.encVal d).1 _ _ (F' + 1) (encVal_typ_lt d) hinl' hent (by omega) hoff htail]
+      exact hch (F' + 1) _ false (by omega)
+    · exact drop_add_of_drop (a := UInt8.ofNat (W.encVal d).1 :: ofLE (W.ow large) off) (by simpa using hent) _
+        (by simp; omega)
+
+theorem arr_entries (E : Ext) (large : Bool) (vs : List W.JDoc) : ∀ (data : Bytes) (pos off : Nat) (R R' : Bytes)
+    (F : Nat) (first : Bool),
+    (∀ v ∈ vs, ChildOK E v) → (∀ v ∈ vs, W.inlined large (W.encVal v).1 = true → SOK v) →
+    data.drop pos = (W.assemble.go2 large (W.ow large) (W.encVals vs) off).1 ++ R →
+    data.drop off = (W.assemble.go2 large (W.ow large) (W.encVals vs) off).2 ++ R' →
+    off ≤ data.length →
+    off + (W.assemble.go2 large (W.ow large) (W.encVals vs) off).2.length < 256 ^ W.ow large →
+    2 * (W.assemble.go2 large (W.ow large) (W.encVals vs) off).2.length + 3 * vs.length + 1 ≤ F →
+    jsonArrEntries E F data large vs.length pos first = .ok (W.renderVals E.fmtFloat64E first vs) := by
+  induction vs with
+  | nil =>
+    intro data pos off R R' F first _ _ _ _ _ _ hF
+    obtain ⟨F', rfl⟩ : ∃ F', F = F' + 1 := ⟨F - 1, by omega⟩
+    simp [jsonArrEntries, W.renderVals]
+  | cons d ds ih =>
+    intro data pos off R R' F first hch hsok hent htail hoff hfit hF
+    simp only [W.encVals] at hent htail hfit hF
+    have hlen : (W.encVals ds).length = ds.length := by
+      clear ih hch hsok hent htail hfit hF
+      induction ds with
+      | nil => rfl
+      | cons a as ih => simp [W.encVals, ih]
+    obtain ⟨F', rfl⟩ : ∃ F', F = F' + 2 := ⟨F - 2, by simp only [List.length_cons] at hF; omega⟩
+    obtain ⟨h1, off', h2, h3, h4, h5, h6⟩ := entry_step E large d (W.encVals ds) data pos off R R' F'
+      (hch d (by simp)) (hsok d (by simp)) hent htail hoff hfit (by rw [hlen]; simpa using hF)
+    rw [hlen] at h6
+    have h7 := ih data (pos + (1 + W.ow large)) off' R R' (F' + 1) false (fun v hv => hch v (by simp [hv]))
+      (fun v hv => hsok v (by simp [hv])) h2 h3 h4 h5 h6
+    simp only [List.length_cons, jsonArrEntries, h1, Res.ok_bind, step_width, h7, Res.pure_eq, W.renderVals]
+
+theorem encVals_length (vs : List W.JDoc) : (W.encVals vs).length = vs.length := by
+  induction vs with
+  | nil => rfl
+  | cons a as ih => simp [W.encVals, ih]
+
+theorem encKVs_length (kvs : List (Bytes × W.JDoc)) : (W.encKVs kvs).length = kvs.length := by
+  induction kvs with
+  | nil => rfl
+  | cons a as ih => obtain ⟨k, d⟩ := a; simp [W.encKVs, ih]
+
+theorem encKeys_length (kvs : List (Bytes × W.JDoc)) : (W.encKeys kvs).length = kvs.length := by
+  induction kvs with
+  | nil => rfl
+  | cons a as ih => obtain ⟨k, d⟩ := a; simp [W.encKeys, ih]
+
+theorem obj_entries (E : Ext) (large : Bool) (kvs : List (Bytes × W.JDoc)) : ∀ (data : Bytes) (pos off : Nat)
+    (R R' : Bytes) (F : Nat) (first : Bool),
+    (∀ p ∈ kvs, ChildOK E p.2) → (∀ p ∈ kvs, W.inlined large (W.encVal p.2).1 = true → SOK p.2) →
+    data.drop pos = (W.assemble.go2 large (W.ow large) (W.encKVs kvs) off).1 ++ R →
+    data.drop off = (W.assemble.go2 large (W.ow large) (W.encKVs kvs) off).2 ++ R' →
+    off ≤ data.length →
+    off + (W.assemble.go2 large (W.ow large) (W.encKVs kvs) off).2.length < 256 ^ W.ow large →
+    2 * (W.assemble.go2 large (W.ow large) (W.encKVs kvs) off).2.length + 3 * kvs.length + 1 ≤ F →
+    jsonObjEntries E F data large (W.encKeys kvs) pos first = .ok (W.renderKVs E.fmtFloat64E first kvs) := by
+  induction kvs with
+  | nil =>
+    intro data pos off R R' F first _ _ _ _ _ _ hF
+    obtain ⟨F', rfl⟩ : ∃ F', F = F' + 1 := ⟨F - 1, by omega⟩
+    simp [jsonObjEntries, W.renderKVs, W.encKeys]
+  | cons p ps ih =>
+    obtain ⟨k, d⟩ := p
+    intro data pos off R R' F first hch hsok hent htail hoff hfit hF
+    simp only [W.encKVs] at hent htail hfit hF
+    obtain ⟨F', rfl⟩ : ∃ F', F = F' + 2 := ⟨F - 2, by simp only [List.length_cons] at hF; omega⟩
+    obtain ⟨h1, off', h2, h3, h4, h5, h6⟩ := entry_step E large d (W.encKVs ps) data pos off R R' F'
+      (hch (k, d) (by simp)) (hsok (k, d) (by simp)) hent htail hoff hfit (by rw [encKVs_length]; simpa using hF)
+    rw [encKVs_length] at h6
+    have h7 := ih data (pos + (1 + W.ow large)) off' R R' (F' + 1) false (fun v hv => hch v (by simp [hv]))
+      (fun v hv => hsok v (by simp [hv])) h2 h3 h4 h5 h6
+    simp only [W.encKeys, jsonObjEntries, h1, Res.ok_bind, step_width, h7, Res.pure_eq, W.renderKVs]
+
+/-! ### whole containers -/
+
+theorem go2_fst_length (large : Bool) (cs : List (Nat × Bytes)) (hc : ∀ c ∈ cs, W.inlined large c.1 = true → c.2.length ≤ W.ow large) :
+    ∀ off, (W.assemble.go2 large (W.ow large) cs off).1.length = cs.length * (1 + W.ow large) := by
+  induction cs with
+  | nil => intro off; simp [go2_nil]
+  | cons c cs ih =>
+    obtain ⟨t, b⟩ := c
+    intro off
+    have ih' := ih (fun c hc' => hc c (by simp [hc']))
+    by_cases hinl : W.inlined large t = true
+    · have := hc (t, b) (by simp) hinl
+      rw [go2_inl _ _ _ _ _ _ hinl]
+      simp only [List.cons_append, List.length_cons, List.length_append, List.length_replicate, ih', Nat.add_mul]
+      simp only [] at this
+      omega
+    · rw [go2_out _ _ _ _ _ _ (by simpa using hinl)]
+      simp only [List.cons_append, List.length_cons, List.length_append, ofLE_length, ih', Nat.add_mul]
+      omega
+
+theorem encVals_inl (large : Bool) (vs : List W.JDoc) :
+    ∀ c ∈ W.encVals vs, W.inlined large c.1 = true → c.2.length ≤ W.ow large := by
+  induction vs with
+  | nil => simp [W.encVals]
+  | cons d ds ih =>
+    intro c hc
+    simp only [W.encVals, List.mem_cons] at hc
+    rcases hc with rfl | hc
+    · exact inlined_len large d
+    · exact ih c hc
+
+theorem encKVs_inl (large : Bool) (kvs : List (Bytes × W.JDoc)) :
+    ∀ c ∈ W.encKVs kvs, W.inlined large c.1 = true → c.2.length ≤ W.ow large := by
+  induction kvs with
+  | nil => simp [W.encKVs]
+  | cons p ps ih =>
+    obtain ⟨k, d⟩ := p
+    intro c hc
+    simp only [W.encKVs, List.mem_cons] at hc
+    rcases hc with rfl | hc
+    · exact inlined_len large d
+    · exact ih c hc
+
+theorem ow_ge (large : Bool) : 2 ≤ W.ow large := by cases large <;> simp [W.ow]
+
+/-- where the parts of an assembled container lie -/
+theorem assemble_layout (large : Bool) (keys : Option (List Bytes)) (children : List (Nat × Bytes)) (R : Bytes)
+    (hc : ∀ c ∈ children, W.inlined large c.1 = true → c.2.length ≤ W.ow large)
+    (hk : keys.isSome = true → (keys.getD []).length = children.length)
+    (data : Bytes) (w n kpos epos hl off : Nat) (g : Bytes × Bytes)
+    (hdata : data = W.assemble large keys children ++ R) (hw : w = W.ow large) (hn : n = children.length)
+    (hkpos : kpos = w + w) (hepos : epos = kpos + (if keys.isSome then n * (w + 2) else 0))
+    (hhl : hl = headLen large keys.isSome n) (hoff : off = hl + keysLen (keys.getD []))
+    (hg : g = W.assemble.go2 large w children off) :
+    data.drop 0 = ofLE w n ++ (ofLE w (off + g.2.length) ++
+      ((W.assemble.go1 w (keys.getD []) hl).flatMap id ++ (g.1 ++ ((keys.getD []).flatMap id ++ (g.2 ++ R))))) ∧
+    data.drop w = ofLE w (off + g.2.length) ++
+      ((W.assemble.go1 w (keys.getD []) hl).flatMap id ++ (g.1 ++ ((keys.getD []).flatMap id ++ (g.2 ++ R)))) ∧
+    data.drop kpos = (W.assemble.go1 w (keys.getD []) hl).flatMap id ++ (g.1 ++ ((keys.getD []).flatMap id ++ (g.2 ++ R))) ∧
+    data.drop epos = g.1 ++ ((keys.getD []).flatMap id ++ (g.2 ++ R)) ∧
+    data.drop hl = (keys.getD []).flatMap id ++ (g.2 ++ R) ∧
+    data.drop off = g.2 ++ R ∧
+    data.length = off + g.2.length + R.length ∧
+    (W.assemble large keys children).length = off + g.2.length := by
+  have h0 : data.drop 0 = ofLE w n ++ (ofLE w (off + g.2.length) ++
+      ((W.assemble.go1 w (keys.getD []) hl).flatMap id ++ (g.1 ++ ((keys.getD []).flatMap id ++ (g.2 ++ R))))) := by
+    rw [hdata, assemble_eq, hg, hoff, hhl, hn, hw]
+    simp only [List.drop_zero, List.append_assoc]
+  have h1 := drop_add_of_drop h0 w (by simp)
+  rw [Nat.zero_add] at h1
+  have h2 := drop_add_of_drop h1 w (by simp)
+  rw [← hkpos] at h2
+  have hkl : ((W.assemble.go1 w (keys.getD []) hl).flatMap id).length = (if keys.isSome then n * (w + 2) else 0) := by
+    cases keys with
+    | none => simp [W.assemble.go1]
+    | some ks =>
+      rw [go1_length]
+      simp at hk ⊢
+      rw [hk, hn]
+  have h3 := drop_add_of_drop h2 _ hkl.symm
+  rw [← hepos] at h3
+  have hel : g.1.length = n * (1 + w) := by rw [hg, hw, go2_fst_length large children hc, hn]
+  have hhl' : hl = epos + n * (1 + w) := by rw [hepos, hkpos, hhl, headLen, hw]; omega
+  have h4 := drop_add_of_drop h3 _ hel.symm
+  rw [← hhl'] at h4
+  have h5 := drop_add_of_drop h4 _ (flat_length _).symm
+  rw [← hoff] at h5
+  have hlen : data.length = off + g.2.length + R.length := by
+    have := drop_length_of h0
+    simp only [List.length_append, ofLE_length, hkl, hel, flat_length] at this
+    rw [hoff, hhl', hepos, hkpos]
+    omega
+  refine ⟨h0, h1, h2, h3, h4, h5, hlen, ?_⟩
+  have : data.length = (W.assemble large keys children).length + R.length := by rw [hdata]; simp
+  omega
+
+theorem arr_ok (E : Ext) (large : Bool) (vs : List W.JDoc) (hch : ∀ v ∈ vs, ChildOK E v)
+    (hsok : ∀ v ∈ vs, W.inlined large (W.encVal v).1 = true → SOK v)
+    (hn : vs.length < 256 ^ W.ow large)
+    (hsz : (W.assemble large none (W.encVals vs)).length < 256 ^ W.ow large) :
+    ChildOK E (.arr large vs) := by
+  intro f R top hf
+  simp only [W.encVal] at hf ⊢
+  obtain ⟨h0, h1, _, h3, _, h5, hlen, hal⟩ := assemble_layout large none (W.encVals vs) R (encVals_inl large vs)
+    (by simp) _ _ _ _ _ _ _ _ rfl rfl rfl rfl rfl rfl rfl rfl
+  simp only [encVals_length, Option.isSome_none, Bool.false_eq_true, if_false, Option.getD_none, keysLen,
+    List.map_nil, List.sum_nil, Nat.add_zero] at h0 h1 h3 h5 hlen hal
+  have hw := ow_ge large
+  have hhl : headLen large false vs.length = 2 * W.ow large + vs.length * (1 + W.ow large) := by simp [headLen]
+  have hmul : vs.length * (1 + W.ow large) ≥ 3 * vs.length := by
+    rw [Nat.mul_comm]; exact Nat.mul_le_mul_right _ (by omega)
+  rw [hal] at hf hsz
+  obtain ⟨f', rfl⟩ : ∃ f', f = f' + 2 := ⟨f - 2, by omega⟩
+  have r1 := readOffsetOrSize_of_drop large h0 (Nat.zero_le _) hn
+  have r2 := readOffsetOrSize_of_drop large h1 (by omega) hsz
+  have r3 := arr_entries E large vs _ _ _ _ R f' true hch hsok h3 h5 (by omega) hsz (by omega)
+  have hjv : jsonValue E (f' + 2) (if large = true then 3 else 2) (W.assemble large none (W.encVals vs) ++ R) top
+      = jsonArray E (f' + 1) (W.assemble large none (W.encVals vs) ++ R) large := by
+    cases large <;> simp [jsonValue]
+  rw [hjv, jsonArray]
+  simp only [r1, Res.ok_bind, Nat.zero_add, r2, hlen, show ¬ (headLen large false vs.length +
+    (W.assemble.go2 large (W.ow large) (W.encVals vs) (headLen large false vs.length)).2.length >
+    headLen large false vs.length + (W.assemble.go2 large (W.ow large) (W.encVals vs)
+      (headLen large false vs.length)).2.length + R.length) by omega, if_false, r3, Res.pure_eq, W.render]
+
+theorem encKeys_lt (kvs : List (Bytes × W.JDoc)) (h : ∀ p ∈ kvs, p.1.length < 65536) :
+    ∀ k ∈ W.encKeys kvs, k.length < 65536 := by
+  induction kvs with
+  | nil => simp [W.encKeys]
+  | cons p ps ih =>
+    obtain ⟨k, d⟩ := p
+    intro k' hk'
+    simp only [W.encKeys, List.mem_cons] at hk'
+    rcases hk' with rfl | hk'
+    · exact h (k', d) (by simp)
+    · exact ih (fun p hp => h p (by simp [hp])) k' hk'
+
+theorem obj_ok (E : Ext) (large : Bool) (kvs : List (Bytes × W.JDoc)) (hch : ∀ p ∈ kvs, ChildOK E p.2)
+    (hsok : ∀ p ∈ kvs, W.inlined large (W.encVal p.2).1 = true → SOK p.2)
+    (hkeys : ∀ p ∈ kvs, p.1.length < 65536)
+    (hn : kvs.length < 256 ^ W.ow large)
+    (hsz : (W.assemble large (some (W.encKeys kvs)) (W.encKVs kvs)).length < 256 ^ W.ow large) :
+    ChildOK E (.obj large kvs) := by
+  intro f R top hf
+  simp only [W.encVal] at hf ⊢
+  obtain ⟨h0, h1, h2, h3, h4, h5, hlen, hal⟩ := assemble_layout large (some (W.encKeys kvs)) (W.encKVs kvs) R
+    (encKVs_inl large kvs) (by simp [encKeys_length, encKVs_length]) _ _ _ _ _ _ _ _ rfl rfl rfl rfl rfl rfl rfl rfl
+  simp only [encKVs_length, Option.isSome_some, if_true, Option.getD_some] at h0 h1 h2 h3 h4 h5 hlen hal
+  have hw := ow_ge large
+  have hhl : headLen large true kvs.length
+      = 2 * W.ow large + kvs.length * (W.ow large + 2) + kvs.length * (1 + W.ow large) := by simp [headLen]
+  have hmul : kvs.length * (1 + W.ow large) ≥ 3 * kvs.length := by
+    rw [Nat.mul_comm]; exact Nat.mul_le_mul_right _ (by omega)
+  rw [hal] at hf hsz
+  obtain ⟨f', rfl⟩ : ∃ f', f = f' + 2 := ⟨f - 2, by omega⟩
+  have r1 := readOffsetOrSize_of_drop large h0 (Nat.zero_le _) hn
+  have r2 := readOffsetOrSize_of_drop large h1 (by omega) hsz
+  have r3 := keys_ok large (W.encKeys kvs) _ _ _ _ _ h2 h4 (by omega) (by omega) (by omega) (encKeys_lt kvs hkeys)
+  rw [encKeys_length] at r3
+  have r4 := obj_entries E large kvs _ _ _ _ R f' true hch hsok h3 h5 (by omega) hsz (by omega)
+  have hjv : jsonValue E (f' + 2) (if large = true then 1 else 0)
+        (W.assemble large (some (W.encKeys kvs)) (W.encKVs kvs) ++ R) top
+      = jsonObject E (f' + 1) (W.assemble large (some (W.encKeys kvs)) (W.encKVs kvs) ++ R) large := by
+    cases large <;> simp [jsonValue]
+  rw [hjv, jsonObject]
+  simp only [r1, Res.ok_bind, Nat.zero_add, r2, hlen, show ¬ (headLen large true kvs.length + keysLen (W.encKeys kvs) +
+    (W.assemble.go2 large (W.ow large) (W.encKVs kvs) (headLen large true kvs.length + keysLen (W.encKeys kvs))).2.length >
+    headLen large true kvs.length + keysLen (W.encKeys kvs) + (W.assemble.go2 large (W.ow large) (W.encKVs kvs)
+      (headLen large true kvs.length + keysLen (W.encKeys kvs))).2.length + R.length) by omega, if_false, r3, r4,
+    Res.pure_eq, W.render]
+
+/-! ### all documents -/
+
+/-- what the induction needs from a well-formedness predicate (instantiated by the Props file's `WFDoc`) -/
+structure WFSpec (P : W.JDoc → Prop) : Prop where
+  obj : ∀ large kvs, P (.obj large kvs) → (∀ p ∈ kvs, p.1.length < 65536 ∧ P p.2) ∧
+    kvs.length < 2 ^ (8 * W.ow large) ∧ (W.encVal (.obj large kvs)).2.length < 2 ^ (8 * W.ow large)
+  arr : ∀ large vs, P (.arr large vs) → (∀ v ∈ vs, P v) ∧
+    vs.length < 2 ^ (8 * W.ow large) ∧ (W.encVal (.arr large vs)).2.length < 2 ^ (8 * W.ow large)
+  scalar : ∀ d, P d → (∀ l kvs, d ≠ .obj l kvs) → (∀ l vs, d ≠ .arr l vs) → SOK d
+
+theorem wf_inl {P : W.JDoc → Prop} (hP : WFSpec P) (large : Bool) (d : W.JDoc) (hwf : P d)
+    (h : W.inlined large (W.encVal d).1 = true) : SOK d := by
+  cases d with
+  | obj l kvs => cases l <;> cases large <;> simp [W.encVal, W.inlined] at h
+  | arr l kvs => cases l <;> cases large <;> simp [W.encVal, W.inlined] at h
+  | _ => exact hP.scalar _ hwf (by intros; simp) (by intros; simp)
+
+theorem scalar_ok (E : Ext) (d : W.JDoc) (hok : SOK d) : ChildOK E d := by
+  intro f R top hf
+  have hpos : 1 ≤ (W.encVal d).2.length := by
+    cases d with
+    | obj l kvs => exact absurd hok (by simp [SOK])
+    | arr l vs => exact absurd hok (by simp [SOK])
+    | str b => have := varlen_length_pos b.length; simp [W.encVal]; omega
+    | _ => simp [W.encVal]
+  obtain ⟨f', rfl⟩ : ∃ f', f = f' + 1 := ⟨f - 1, by omega⟩
+  exact scalar_val E d hok f' R top
+
+theorem doc_ok_aux {P : W.JDoc → Prop} (hP : WFSpec P) (E : Ext) (n : Nat) :
+    ∀ d : W.JDoc, sizeOf d < n → P d → ChildOK E d := by
+  induction n with
+  | zero => intro d hd; omega
+  | succ n ih =>
+    intro d hd hwf
+    cases d with
+    | obj large kvs =>
+      obtain ⟨hk, hn, hsz⟩ := hP.obj large kvs hwf
+      rw [pow_ow] at hn hsz
+      simp only [W.encVal] at hsz
+      have hsize : ∀ p ∈ kvs, sizeOf p.2 < n := by
+        intro p hp
+        have h1 := List.sizeOf_lt_of_mem hp
+        obtain ⟨k, d⟩ := p
+        simp only [W.JDoc.obj.sizeOf_spec, Prod.mk.sizeOf_spec] at hd h1 ⊢
+        omega
+      exact obj_ok E large kvs (fun p hp => ih p.2 (hsize p hp) (hk p hp).2)
+        (fun p hp => wf_inl hP large p.2 (hk p hp).2) (fun p hp => (hk p hp).1) hn hsz
+    | arr large vs =>
+      obtain ⟨hk, hn, hsz⟩ := hP.arr large vs hwf
+      rw [pow_ow] at hn hsz
+      simp only [W.encVal] at hsz
+      have hsize : ∀ v ∈ vs, sizeOf v < n := by
+        intro v hv
+        have h1 := List.sizeOf_lt_of_mem hv
+        simp only [W.JDoc.arr.sizeOf_spec] at hd
+        omega
+      exact arr_ok E large vs (fun v hv => ih v (hsize v hv) (hk v hv))
+        (fun v hv => wf_inl hP large v (hk v hv)) hn hsz
+    | _ => exact scalar_ok E _ (hP.scalar _ hwf (by intros; simp) (by intros; simp))
+
+/-- every well-formed document decodes to its text, followed by anything, with fuel twice its length -/
+theorem doc_ok {P : W.JDoc → Prop} (hP : WFSpec P) (E : Ext) (d : W.JDoc) (hwf : P d) : ChildOK E d :=
+  doc_ok_aux hP E (sizeOf d + 1) d (by omega) hwf
+
+/-- the column value of every well-formed document -/
+theorem doc_data {P : W.JDoc → Prop} (hP : WFSpec P) (E : Ext) (d : W.JDoc) (hwf : P d) :
+    printJSONData E (W.jsonb d) = .ok (W.render E.fmtFloat64E true d) := by
+  rw [printJSONData_jsonb]
+  simpa using doc_ok hP E d hwf _ [] true (by omega)
+
+/-- through the cell decoder -/
+theorem cell_json (E : Ext) (b rest : Bytes) (t : Bytes) (u : Bool) (hl : b.length < 2 ^ 32)
+    (h : printJSONData E b = .ok t) :
+    cellBytes E (ofLE 4 b.length ++ b ++ rest) 0 245 4 u = .ok (t, 4 + b.length) := by
+  have h1 : blobLen (ofLE 4 b.length ++ (b ++ rest)) 0 4 = .ok b.length := by
+    have := leIdx_at [] (b ++ rest) 4 b.length
+    simp only [List.nil_append, List.length_nil] at this
+    simp only [blobLen, this]
+    simp
+    omega
+  have h2 : Bytes.slice (ofLE 4 b.length ++ (b ++ rest)) 4 (b.length + 4) = .ok b := by
+    have := slice_mid (ofLE 4 b.length) b rest
+    simpa [Nat.add_comm] using this
+  unfold cellBytes
+  simp [h1, h2, h, Nat.add_comm]
 
 end C14
 end GV
